@@ -18,7 +18,9 @@ RULE = (
     "', one section | range | pair, trailing text, Twp/Rge placed before / "
     "before on its own line / inside / after) -> that section's tract(s) "
     "described by leading + ' ' + trailing, with a sec_within<trs> warning "
-    "per tract when there is trailing text. Hooks record "
+    "per tract when there is trailing text (trailing texts of exactly 4 and 5 "
+    "characters included); every mode is requested both through the config "
+    "string and through the parse() keyword. Hooks record "
     "PLSSChunker.segment (blocks / unused), rebuild_sec_within (before / "
     "after) and SecFinder passes for the witnesses. Non-trivial: >= 2 "
     "expected tracts (a-c) or a multi-section / trailing text (d). Distinct "
@@ -32,13 +34,15 @@ ASSUMPTIONS = [
 ]
 MIN_NONTRIVIAL = {'quick': 4000, 'thorough': 100000}
 REQUIRED_MONITORS = ['segment', 'all-colons', 'no-colons:cautious',
-                     'no-colons:required', 'sec_within', 'hook:segment',
+                     'no-colons:required', 'keyword-channel', 'sec_within',
+                     'hook:segment',
                      'hook:rebuild_sec_within', 'hook:findall_matching_sec']
 
 LEAD = ['That part of the NE/4', 'The north 100 feet', 'All that portion',
         'A tract of land', 'That part of Lot 1', 'NE/4', 'The W/2 and Lot 3',
         'A strip 50 feet wide']
-TRAIL = ['lying within RoW', 'lying north of the river',
+TRAIL = ['SW/4', 'N2S2', 'W2E2', 'Lot 1', 'RoW 3',
+         'lying within RoW', 'lying north of the river',
          'described as follows', 'less and except the wellbore',
          'containing 40 acres, more or less', 'as shown on the plat', '']
 _SEP = ',;:-–—\t\n .'
@@ -118,8 +122,37 @@ def check_modes(case, ctx, rec, pytrs):
                 f"{short(nocol, 120)!r}: sections pulled without colon but no "
                 f"pulled_sec_without_colon warning (w_flags {c.w_flags})",
                 dedup=layout)
+        # The same two modes requested through parse() keywords.
+        ctx.hit('keyword-channel')
+        k = pytrs.PLSSDesc(nocol)
+        kc = k.parse(sec_colon_cautious=True, commit=False)
+        if [[t.trs, t.desc] for t in kc] != tr(c):
+            ctx.violation(
+                'mode-keyword-differs-from-config', case,
+                f"parse(sec_colon_cautious=True) on {short(nocol, 100)!r}: "
+                f"{[[t.trs, t.desc] for t in kc]} vs config channel {tr(c)}",
+                dedup='cautious')
+        k.parse(sec_colon_cautious=True)
+        if sorted(map(str, k.w_flags)) != sorted(map(str, c.w_flags)):
+            ctx.violation(
+                'mode-keyword-differs-from-config', case,
+                f"parse(sec_colon_cautious=True) flags {k.w_flags} vs config "
+                f"channel {c.w_flags}", dedup='cautious-flags')
+        k2 = pytrs.PLSSDesc(nocol, wait_to_parse=True)
+        kr = k2.parse(sec_colon_required=True)
+        ks = pytrs.PLSSDesc(txt).parse(segment=True, commit=False)
+        if [[t.trs, t.desc] for t in ks] != tr(b):
+            ctx.violation('mode-keyword-differs-from-config', case,
+                          f"parse(segment=True) {[[t.trs, t.desc] for t in ks]}"
+                          f" vs config 'segment' {tr(b)}", dedup='segment')
         ctx.hit('no-colons:required')
         r = pytrs.PLSSDesc(nocol, config='sec_colon_required')
+        if [[t.trs, t.desc] for t in kr] != tr(r):
+            ctx.violation(
+                'mode-keyword-differs-from-config', case,
+                f"parse(sec_colon_required=True) on {short(nocol, 100)!r}: "
+                f"{[[t.trs, t.desc] for t in kr]} vs config channel {tr(r)}",
+                dedup='required')
         if len(r.tracts) != 1 or loose(r.tracts[0].desc) != loose(r.pp_desc):
             ctx.violation(
                 'required-without-colons-not-one-fallback-tract', case,
@@ -166,7 +199,8 @@ def gen_sec_within(rng):
     desc = (lead + ' ' + trail).strip()
     exp = [[f"{t}{ns}{r}{ew}{n:02d}", desc] for n in nums]
     return {'sec_within': True, 'text': txt, 'expected': exp, 'trail': trail,
-            'place': place, 'multi': len(nums) > 1}
+            'place': place, 'multi': len(nums) > 1,
+            'channel': rng.choice(['config', 'config', 'keyword'])}
 
 
 def check_sec_within(case, ctx, rec, pytrs):
@@ -177,7 +211,11 @@ def check_sec_within(case, ctx, rec, pytrs):
     ctx.hit('sec_within')
     rec.reset()
     with ctx.guard(case):
-        d = pytrs.PLSSDesc(txt, config='sec_within')
+        if case.get('channel') == 'keyword':
+            d = pytrs.PLSSDesc(txt, wait_to_parse=True)
+            d.parse(sec_within=True)
+        else:
+            d = pytrs.PLSSDesc(txt, config='sec_within')
         sw = rec.of('sec_within')
         wit = {'rebuild': sw[-1] if sw else None}
         if tr(d) != exp:
